@@ -5,7 +5,7 @@ usage: tools/eval_neutral.py <dir with neutral_*.diff> [...]   -> prints every c
 import concurrent.futures, glob, os, shutil, subprocess, sys, tempfile
 
 VERIF = os.path.dirname(os.path.dirname(os.path.abspath(__file__)))
-PROPS = [f"C{i:02d}" for i in range(1, 21)]
+PROPS = os.environ.get("EVAL_PROPS", "").split() or [f"C{i:02d}" for i in range(1, 21)]
 
 
 def one(patch):
